@@ -13,6 +13,7 @@ from vp_common import *
 import vp_coq, vp_build
 import driver_cases as dc
 
+USE_MODEL = True
 PHYS_PREFIXES = ("/BunchLength", "/BunchPopulation", "/BunchPosition", "/BunchProfile", "/CSR", "/EnergyAverage",
                  "/EnergyProfile", "/EnergySpread", "/Particles", "/PhaseSpace", "/RFKicks", "/WakePotential", "/Info/AxisValues")
 
@@ -58,10 +59,9 @@ def check_pair(ctx, tg, ref, href, var, wd, points, nsetup, dis, key):
     out = os.path.join(wd, (var.get("name") or ("v_" + var["tag"])) + ".h5")
     r = dc.run_real(tg, var, out)
     h = dc.h5read(tg, out)
-    mo = dc.run_model([("m", var, None, False, nsetup)])["m"]
     ctx.count("variant:" + var["tag"].split("_")[0])
     case = dict(reference=dc.cmdline(ref, "ref.h5"), variant=dc.cmdline(var, "var.h5"))
-    d = dc.compare_with_model(var, r, h, mo, points, nsetup)
+    d = dc.compare_with_model(var, r, h, dc.run_model([("m", var, None, False, nsetup)])["m"], points, nsetup) if USE_MODEL else []
     for x in d:
         dis.append(dict(case=case, detail=x, sig={"stage": "correspondence", "what": x.split(" ")[0]}))
     if h is None or r["rc"] != 0:
@@ -103,10 +103,11 @@ def run(ctx):
                     "FFTW wisdom shared through XDG_DATA_HOME")
     ctx.trusted.add("process-level determinism (FFTW planning, uninitialised memory) is established by the repeated runs only, not by a theorem")
     dis = []
-    if not coq["make_ok"] or not coq["extract_ok"] or not os.path.exists(vp_coq.model_path("driver")):
-        conclude(ctx, coq, dis)
-        return
-    points, setup = dc.point_tables()
+    # decision rule: a broken proof/translation stage does not stop the check - the property oracle still runs on
+    # the binary to look for a concrete failing input; only the model comparison is skipped
+    global USE_MODEL
+    USE_MODEL = bool(coq["make_ok"] and coq["extract_ok"] and os.path.exists(vp_coq.model_path("driver")))
+    points, setup = dc.point_tables() if USE_MODEL else ([], [])
     wd = workdir(ctx)
     tfile = os.path.join(wd, "track.txt")
     with open(tfile, "w") as f:
@@ -123,8 +124,7 @@ def run(ctx):
             ctx.violation("impl-oracle", "reference run failed", case=dict(cmd=r["cmd"]), observed=r["log"][-400:],
                           sig={"oracle": "run-failed"})
             continue
-        mo = dc.run_model([("m", base, None, False, nsetup)])["m"]
-        for x in dc.compare_with_model(base, r, href, mo, points, nsetup):
+        for x in (dc.compare_with_model(base, r, href, dc.run_model([("m", base, None, False, nsetup)])["m"], points, nsetup) if USE_MODEL else []):
             dis.append(dict(case=dict(cmd=r["cmd"]), detail=x, sig={"stage": "correspondence", "what": x.split(" ")[0]}))
         ntr += 1
         # tracking needs a reference that tracks too for the particle records
